@@ -117,7 +117,7 @@ def step (f : Fns α) (c : Cfg α) (s : State α) (v : α) : State α :=
   let predMean := sumList (List.zipWith (· * ·) probs means)
   let predVar := sumList (List.zipWith (· * ·) probs (varParams c precs))
   let drift := if c.minN ≤ n then argmax row != n else s.drift
-  { n := n, drift := drift, row := row, logMessage := joint, predMean := some predMean,
+  { n := n, drift := drift, row := row, logMessage := row, predMean := some predMean,
     predVar := some predVar, means := means, precs := precs }
 
 def reset (c : Cfg α) (_s : State α) : State α := init c
